@@ -6,9 +6,9 @@ git diff -- apt_mirror > /tmp/patch_$P.diff
 [ -s /tmp/patch_$P.diff ] || { echo "no change in $WT"; exit 2; }
 echo "--- tests with change:"; /venv/bin/python -m pytest -q -p no:cacheprovider 2>&1 | tail -1
 echo "--- demo with change:"; /venv/bin/python demo_$P.py > /tmp/demo_changed_$P.log 2>&1; echo "rc=$?"; tail -3 /tmp/demo_changed_$P.log
-git stash -q -- apt_mirror
+git apply -R /tmp/patch_$P.diff   # (git stash is shared between worktrees: never use it here)
 echo "--- demo on original:"; /venv/bin/python demo_$P.py > /tmp/demo_orig_$P.log 2>&1; echo "rc=$?"; tail -2 /tmp/demo_orig_$P.log
-git stash pop -q
+git apply /tmp/patch_$P.diff
 mkdir -p $OUT
 cp /tmp/patch_$P.diff $OUT/patch.diff
 cp demo_$P.py $OUT/demo.py
